@@ -3541,6 +3541,7 @@ impl<'s> Semantics<'s> {
                 rhs = Expr::sext(lhs.bits(), rhs)?;
             }
 
+            let src = rhs.clone();
             let rhs = Expr::add(rhs.clone(), Expr::zext(rhs.bits(), expr_scalar("CF", 1))?)?;
 
             let result = self.temp(0, lhs.bits());
@@ -3549,8 +3550,16 @@ impl<'s> Semantics<'s> {
             // calculate flags
             self.set_zf(block, result.clone().into())?;
             self.set_sf(block, result.clone().into())?;
-            self.set_of(block, result.clone().into(), lhs.clone(), rhs, true)?;
-            self.set_cf(block, result.clone().into(), lhs)?;
+            self.set_of(block, result.clone().into(), lhs.clone(), rhs.clone(), true)?;
+            // borrow of lhs - (src + CF), or src + CF itself wrapped around
+            // (src all ones and CF set), in which case there is always a borrow
+            block.assign(
+                scalar("CF", 1),
+                Expr::or(
+                    Expr::cmpltu(lhs, result.clone().into())?,
+                    Expr::cmpltu(rhs, src)?,
+                )?,
+            );
 
             // store result
             self.operand_store(block, &detail.operands[0], result.into())?;
